@@ -19,17 +19,19 @@ class LoopSpec:
 class Via:
     """Reach a closure through the real factory method, executed symbolically on a real receiver."""
 
-    def __init__(self, entry, receivers=None, args=None, kwargs=None):
+    def __init__(self, entry, receivers=None, args=None, kwargs=None, instance_kwargs=None, any_closure=False):
         self.entry = entry
         self.receivers = receivers or {"": None}     # label -> callable(module) -> receiver object | None (function)
         self.args = args or {}
         self.kwargs = kwargs or {}
+        self.instance_kwargs = instance_kwargs or {}  # label -> {name: kind} (overrides kwargs)
+        self.any_closure = any_closure                # the unit is whatever closure the factory returns
 
 
 class Contract:
     def __init__(self, file, qual, *, props, params=None, free=None, via=None, requires=(), post=None, loops=None,
                  cover=(), native=None, name=None, clause_props=None, generator=False, notes=(), stubs=None,
-                 callee_contracts=None, bounded_ok=False, frame=True, max_paths=None, trusted=False):
+                 callee_contracts=None, bounded_ok=False, ghosts=None, replayer=None, frame=True, max_paths=None, trusted=False):
         self.file = file
         self.qual = qual
         self.name = name or f"{file}:{qual}"
@@ -51,6 +53,8 @@ class Contract:
         self.frame = frame                # add the implicit `modifies nothing` clause (C20)
         self.trusted = trusted
         self.max_paths = max_paths
+        self.ghosts = dict(ghosts or {})
+        self.replayer = replayer
         if self.name in REGISTRY:
             raise ValueError(f"duplicate contract {self.name}")
         REGISTRY[self.name] = self
